@@ -408,6 +408,12 @@ def directed_histories():
         for victim in (['remove', 1, 0, 0, 0], ['remove', p2[2], p2[1], p2[0], 0]):
             yield {'kind': 'history', 'ops': [['update', 0, 0, 1, [0, 1]], ['update', *p2, [0, 1]], victim, ['reopen']]}
             yield {'kind': 'history', 'ops': [['update', 0, 0, 1, [0, 0]], ['update', *p2, [1, 0]], victim, ['purge']]}
+    # content that left the store comes back: an entry is overwritten, purge deletes the copy nobody refers to any more,
+    # then the same content is stored again (same key, another key, after a reopen or not) - it is new again, and the
+    # new entry must find its file (whatever the process remembers about earlier moves)
+    for again in (['update', 0, 0, 1, [0, 1]], ['update', 1, 1, 1, [0, 0]], ['update', 0, 1, 2, [None, 0]]):
+        yield {'kind': 'history', 'ops': [['update', 0, 0, 1, [0, 1]], ['update', 0, 0, 1, [2, 1]], ['purge'], again, ['reopen']]}
+        yield {'kind': 'history', 'ops': [['update', 0, 0, 1, [0, 1]], ['update', 0, 0, 1, [2, 3]], ['purge'], again, ['purge'], again]}
     for a in (4, 6, 8):      # large values sharing all but their last bytes
         yield {'kind': 'history', 'ops': [['update', 0, 0, 1, [a, a + 1]], ['update', 0, 1, 1, [a + 1, a]], ['purge']]}
         yield {'kind': 'history', 'ops': [['update', 0, 0, 1, [a, None]], ['update', 0, 0, 2, [a + 1, None]], ['reopen'], ['update', 1, 1, 1, [a, a]]]}
